@@ -2,6 +2,7 @@ import Gopki.Lemmas.DerLemmas
 import Gopki.Lemmas.IntLemmas
 import Gopki.Model.Db
 import Gopki.Generated.Facts
+import Gopki.Lemmas.TimeRound
 /-! # C02 — emitted certificates are canonical-DER, conformant X.509v3 structures -/
 namespace C02
 open Der Asn1 Gen Config
@@ -89,5 +90,29 @@ theorem C02_time_form (c : Civil) (t : Tlv) (h : tTime c = some t) :
 example : X509.decodeDer (Tlv.cons 0x30 [.cons 0x30 [.cons 0xa0 [.prim 2 [2]], .prim 2 [5], .cons 0x30 [.prim 6 [42, 3]]], .cons 0x30 [.prim 6 [42, 3]], .prim 3 [0, 1, 2]]).enc
     = some (Tlv.cons 0x30 [.cons 0x30 [.cons 0xa0 [.prim 2 [2]], .prim 2 [5], .cons 0x30 [.prim 6 [42, 3]]], .cons 0x30 [.prim 6 [42, 3]], .prim 3 [0, 1, 2]]) := by
   apply X509.decodeDer_enc; decide
+
+/-- **time round trip**: every valid civil time of the years 0 … 9999 is written in the DER form its year demands
+    and is read back by the specification reader as exactly that instant; in particular the content is the
+    canonical `YYMMDDHHMMSSZ` / `YYYYMMDDHHMMSSZ` form (what `X509.primCanonical` demands of tags 0x17 / 0x18) -/
+theorem C02_time_roundtrip (c : Civil) (hy : 0 ≤ c.year ∧ c.year ≤ 9999) (hv : Calendar.validDate c.year c.month c.day = true)
+    (hh : c.hour < 24) (hm : c.minute < 60) (hs : c.second < 60) :
+    ∃ tag content, tTime c = some (.prim tag content) ∧
+      X509.decTime tag content = some (Calendar.goDate c.year c.month c.day c.hour c.minute c.second 0) ∧
+      X509.primCanonical tag content = true ∧ (tag = 0x17 ↔ (1950 ≤ c.year ∧ c.year < 2050)) := by
+  have hmo : c.month < 100 := by
+    simp only [Calendar.validDate, Bool.and_eq_true, decide_eq_true_eq] at hv; omega
+  have hd : c.day < 100 := by
+    have := TimeRound.daysInMonth_le c.year c.month
+    simp only [Calendar.validDate, Bool.and_eq_true, decide_eq_true_eq] at hv; omega
+  by_cases hu : 1950 ≤ c.year ∧ c.year < 2050
+  · obtain ⟨h1, h2⟩ := TimeRound.decTime_tTime_utc c hu hv hh hm hs hmo hd
+    refine ⟨0x17, _, h1, h2, ?_, by simp [hu]⟩
+    simp only [X509.primCanonical]
+    have : ¬ ((0x17 : UInt8) = 0x01) := by decide
+    simp [h2]
+  · obtain ⟨h1, h2⟩ := TimeRound.decTime_tTime_gen c hy hu hv hh hm hs hmo hd
+    refine ⟨0x18, _, h1, h2, ?_, by simp [hu]⟩
+    simp only [X509.primCanonical]
+    simp [h2]
 
 end C02
